@@ -258,6 +258,11 @@ def sigma(n, f, lo=0):
     return Sigma.make(n, f, lo=lo)
 
 
+def vary_layout(rng, a):
+    """symbolic twin: memory layout is not part of the value model"""
+    return a
+
+
 def sum_value(s):
     """the value of a real Sigma-term as a scalar (an atom shared by alpha-equivalent sums), for use as a factor or divisor"""
     from .symarr import sigma_atom
